@@ -281,3 +281,119 @@ pub fn market_case_strategy(cfg: GenCfg, max_assets: usize) -> BoxedStrategy<Mar
     })
     .boxed()
 }
+
+// ------------------------------------------------------------------------------------------
+// step-environment histories
+
+use crate::envcase::{EnvCase, Instr, StepSpec};
+
+#[derive(Clone, Debug)]
+pub struct EnvGenCfg {
+    pub max_steps: usize,
+    pub max_batch: usize,
+    /// more instructions than time units per step (C05b)
+    pub overfull: bool,
+    pub offgrid: bool,
+    pub toggle_pct: u32,
+    pub start_off_pct: u32,
+    /// 0 = only Env, 1 = only MarketEnv, 2 = both
+    pub kinds: u8,
+    pub large_batch_pct: u32,
+    pub w_new: u32,
+    pub w_cancel: u32,
+    pub w_modify: u32,
+    pub market_pct: u32,
+    pub drain: bool,
+}
+
+impl EnvGenCfg {
+    pub fn base() -> Self {
+        EnvGenCfg { max_steps: 8, max_batch: 12, overfull: false, offgrid: false, toggle_pct: 0, start_off_pct: 0, kinds: 2, large_batch_pct: 3, w_new: 60, w_cancel: 18, w_modify: 22, market_pct: 15, drain: true }
+    }
+}
+
+fn instr_strategy(cfg: &EnvGenCfg, frames: &[Frame]) -> BoxedStrategy<Instr> {
+    let n = frames.len();
+    let per: Vec<(u32, BoxedStrategy<Instr>)> = frames
+        .iter()
+        .enumerate()
+        .map(|(a, f)| {
+            let a = a as u8;
+            let (tick, mid) = (f.tick, f.mid);
+            // bids mostly at or below the mid, asks at or above: resting depth on both sides with regular crossings
+            let bid_price = (0u32..6).prop_map(move |d| (mid - 3 + d.min(4)) * tick);
+            let ask_price = (0u32..6).prop_map(move |d| (mid - 1 + d.min(4)) * tick);
+            let any_price = price_strategy(f);
+            let m = cfg.market_pct;
+            let offgrid = f.offgrid;
+            let new = (any::<bool>(), vol_strategy(f.wide), 0u32..6, 0u32..100, bid_price, ask_price, any_price.clone()).prop_map(move |(bid, vol, trader, r, bp, ap, anyp)| {
+                let price = if r < m {
+                    None
+                } else if offgrid && r % 2 == 0 {
+                    Some(anyp)
+                } else {
+                    Some(if bid { bp } else { ap })
+                };
+                Instr::New { asset: a, bid, vol, trader, price }
+            });
+            let rf = prop_oneof![5 => (Just(2u8), any::<u16>()), 3 => (Just(1u8), any::<u16>()), 1 => (Just(0u8), any::<u16>())].prop_map(|(pref, ix)| Ref { pref, ix });
+            let cancel = rf.clone().prop_map(move |r| Instr::Cancel { asset: a, r });
+            let mp = (0u32..100, any_price).prop_map(|(r, p)| if r < 40 { None } else { Some(p) });
+            let mv = (0u32..100, vol_strategy(false)).prop_map(|(r, v)| if r < 35 { None } else { Some(v) });
+            let modify = (rf, mp, mv).prop_map(move |(r, price, vol)| Instr::Modify { asset: a, r, price, vol });
+            let mut v: Vec<(u32, BoxedStrategy<Instr>)> = vec![(cfg.w_new.max(1), new.boxed())];
+            if cfg.w_cancel > 0 {
+                v.push((cfg.w_cancel, cancel.boxed()));
+            }
+            if cfg.w_modify > 0 {
+                v.push((cfg.w_modify, modify.boxed()));
+            }
+            (1u32, Union::new_weighted(v).boxed())
+        })
+        .collect();
+    let _ = n;
+    Union::new_weighted(per).boxed()
+}
+
+pub fn env_case_strategy(cfg: EnvGenCfg) -> BoxedStrategy<EnvCase> {
+    let kind = match cfg.kinds {
+        0 => Just(0u8).boxed(),
+        1 => (1u8..=4).boxed(),
+        _ => prop_oneof![2 => Just(0u8), 1 => Just(1u8), 2 => Just(2u8), 1 => Just(3u8), 1 => Just(4u8)].boxed(),
+    };
+    let head = (kind, proptest::collection::vec((1u32..=10, 6u32..1000), 4), 1usize..=crate::dynbook::MAX_LEVELS, proptest::sample::select(MARKET_LEVELS.to_vec()), 0u64..100_000, any::<u64>(), 0u32..100, 0u32..100);
+    head.prop_flat_map(move |(kind_assets, tm, l_env, l_mkt, t0, seed, off, large)| {
+        let n = (kind_assets as usize).max(1);
+        let levels = if kind_assets == 0 { l_env } else { l_mkt };
+        let ticks: Vec<u32> = tm.iter().take(n).map(|x| x.0).collect();
+        let frames: Vec<Frame> = tm.iter().take(n).map(|(tick, mid)| Frame { tick: *tick, mid: *mid, wide: false, offgrid: cfg.offgrid }).collect();
+        let trading = off >= cfg.start_off_pct;
+        let is_large = !cfg.overfull && large < cfg.large_batch_pct;
+        let (step_size_s, batch_range): (BoxedStrategy<u64>, std::ops::RangeInclusive<usize>) = if cfg.overfull {
+            ((1u64..=4).boxed(), 0..=16)
+        } else if is_large {
+            (prop_oneof![Just(64u64), Just(100u64), Just(256u64)].boxed(), 30..=60)
+        } else {
+            (prop_oneof![Just(16u64), Just(17u64), Just(100u64), Just(1000u64), Just(1_000_000u64)].boxed(), 0..=cfg.max_batch)
+        };
+        let mut icfg = cfg.clone();
+        if is_large {
+            icfg.w_new = 200;
+        }
+        let instr = instr_strategy(&icfg, &frames);
+        let tp = cfg.toggle_pct;
+        let step = (0u32..100, any::<bool>(), proptest::collection::vec(instr, batch_range)).prop_map(move |(r, on, instrs)| StepSpec { toggle: if r < tp { Some(on) } else { None }, instrs });
+        let (overfull, drain) = (cfg.overfull, cfg.drain);
+        (step_size_s, proptest::collection::vec(step, 1..=cfg.max_steps)).prop_map(move |(step_size, mut steps)| {
+            if overfull {
+                // batches of step_size+1 .. 4*step_size instructions
+                for s in steps.iter_mut() {
+                    let cap = (4 * step_size as usize).max(2);
+                    s.instrs.truncate(cap);
+                }
+            }
+            EnvCase { kind_assets, levels, ticks: ticks.clone(), t0, step_size, trading, seed, steps, drain }
+        })
+    })
+    .boxed()
+}
